@@ -214,6 +214,23 @@ def directed(acc):
         s = dict(base, start_tag=tags[0], end_tag=tags[1])
         write_and_parse(s, acc)
         acc.count("tagless_files")
+    # the words of both tags occur, but no end tag follows the start tag
+    from pytestarch.diagram_extension.diagram_parser import PumlParser
+
+    d = os.path.join(trees.scratch_dir(), "puml")
+    os.makedirs(d, exist_ok=True)
+    for k, text in enumerate(["' close the block with @enduml\n@startuml\n[Alpha] --> [Beta]\n", "@enduml\n@startuml\n[Alpha] --> [Beta]\n", "text @enduml text\n\n@startuml\ncomponent Alpha\n"]):
+        path = os.path.join(d, f"endfirst{k}.puml")
+        open(path, "w").write(text)
+        register_puml(path, ["Alpha", "Beta"], [("Alpha", "Beta")], True)
+        HUB.case = {"kind": "raw", "text": text}
+        try:
+            PumlParser().parse(path)
+        except Exception:  # noqa: BLE001  (judged by the monitor)
+            pass
+        acc.evaluated()
+        acc.count("tagless_files")
+        os.unlink(path)
     # every declaration form x every reference form x every arrow form
     for df, rf, ar in itertools.product(rpuml.DECL_FORMS, rpuml.REF_FORMS, rpuml.ARROWS):
         if rf == "alias" and " as a" not in df:
